@@ -78,7 +78,9 @@ def T.ids (t : T) : List Nat := t.att.map (·.id)
 /-- `canAttachOrRemove`: (attach, remove, wait-list additions) -/
 def canAttach (t : T) (c : Change) (addToWait : Bool) : Bool × Bool × List (Nat × Nat) :=
   let missing := c.prevs.filter (fun p => !t.has p)
-  if !missing.isEmpty then (false, false, if addToWait then missing.map (fun p => (p, c.id)) else [])
+  -- only the root has no previous ids; any other change without them is dropped (never attached)
+  if c.prevs.isEmpty then (false, true, [])
+  else if !missing.isEmpty then (false, false, if addToWait then missing.map (fun p => (p, c.id)) else [])
   else if !t.has c.snap then (false, true, [])
   else (true, false, [])
 
